@@ -119,6 +119,12 @@ pub enum EkuDrop {
     ClientAuth,
     Both,
     Absent,
+    /// the list has two entries, but one prescribed purpose is repeated and the other missing
+    ServerAuthTwice,
+    ClientAuthTwice,
+    /// one prescribed purpose replaced by another one (codeSigning)
+    ServerAuthReplaced,
+    ClientAuthReplaced,
 }
 
 /// One respect in which a chain deviates from a valid one.
@@ -822,6 +828,10 @@ pub fn forge<C: Crypto>(
                             match drop {
                                 EkuDrop::ServerAuth => l.retain(|v| *v != 1),
                                 EkuDrop::ClientAuth => l.retain(|v| *v != 2),
+                                EkuDrop::ServerAuthTwice => *l = vec![1, 1],
+                                EkuDrop::ClientAuthTwice => *l = vec![2, 2],
+                                EkuDrop::ServerAuthReplaced => l.iter_mut().for_each(|v| if *v == 1 { *v = 3 }),
+                                EkuDrop::ClientAuthReplaced => l.iter_mut().for_each(|v| if *v == 2 { *v = 3 }),
                                 _ => l.clear(),
                             }
                         }
